@@ -39,6 +39,10 @@ For every unit the verifier demands
   `pop_frame` discards by truncating the builder stacks to their lengths at frame entry (fix 97373d1),
   which is exactly the VM's contract for leaving a frame — whereas a `Start` that no `Finish` closes
   (a leak in straight-line code) is rejected even if no join ever sees two different depths.
+  A `break` / `continue` inside a literal finishes the open builders of the loop body before its jump
+  (fix 2f5d1ea): such an exit sequence (`Finish … Finish; Jump`) closes the brackets on the leaving
+  path only — the balance rule makes the jump's target see the loop's own depth — and the code after
+  the unconditional jump continues inside the brackets (`linLex`).
 
 The depth assignment is *inferred* by an untrusted linear pass (`annotate`) and then *checked*
 (`checkAnns`); only the check matters for the soundness theorems (Props/C05.lean).
@@ -198,26 +202,56 @@ def linStep (op : Op) (s t : Nat) : Option (Nat × Nat) :=
   | .StringFinish => if t = 0 then none else some (s, t - 1)
   | _ => some (s, t)
 
+def isCloser (op : Op) : Bool :=
+  match op with
+  | .SequenceToList | .SequenceToTuple | .StringFinish => true
+  | _ => false
+
+def isJump (op : Op) : Bool :=
+  match op with
+  | .Jump | .JumpBack => true
+  | _ => false
+
+/-- the inferred builder depths of `a` (if it is reachable) are `(s, t)` -/
+def depthIs (a : Ann) (s t : Nat) : Bool :=
+  match a.d with
+  | some d => d.seq = s && d.str = t
+  | none => true
+
+/-- The static nesting depths `(sequence, string)` of the instructions of a listing, from depth
+`(s, t)` on — `none` if the listing is not bracket-structured.
+
+In listing order a `Start` opens a bracket and a `Finish` closes the innermost one (`linStep`); all
+brackets are closed at the end; at every reachable instruction the inferred (dynamic) builder depths
+equal the static depth. One refinement (compiler fix 2f5d1ea): `break` / `continue` inside a literal
+finish the builders that are open in the loop's body *before jumping* — an **exit sequence**, an
+uninterrupted run of `Finish` instructions directly followed by an unconditional `Jump` / `JumpBack`.
+The exit sequence closes the brackets for the leaving path only; the code that follows the jump in the
+listing (the rest of the literal: reached by the branch that did not leave, or dead) is still inside
+them. So after an unconditional jump the static depth continues either with the depth at the jump or
+with the depth before one of the `Finish` instructions of the run directly in front of the jump
+(`run`: those depths, innermost first; any other instruction resets it). Which one is not visible
+locally when the following instruction is unreachable (`x = [1]` at the end of a loop body and
+`[1, (continue), 3]` both give `Finish; JumpBack; dead code`), so the alternatives are tried in that
+order; if the following instruction is reachable its inferred depth decides at once. -/
+def linLex : Nat → Nat → List (Nat × Nat) → List Ann → Option (List (Nat × Nat))
+  | s, t, _, [] => if s = 0 ∧ t = 0 then some [] else none
+  | s, t, run, a :: rest =>
+    match depthIs a s t, linStep a.ins.op s t with
+    | true, some (s', t') =>
+      (if isJump a.ins.op then ((s', t') :: run).findSome? (fun st => linLex st.1 st.2 [] rest)
+       else linLex s' t' (if isCloser a.ins.op then (s, t) :: run else []) rest).map ((s, t) :: ·)
+    | _, _ => none
+
 /-- The listing is bracket-structured from nesting depth `(s, t)` on, closes every bracket by its
 end, and the inferred builder depths of reachable instructions are their nesting depths. -/
-def linOk : Nat → Nat → List Ann → Bool
-  | s, t, [] => s = 0 && t = 0
-  | s, t, a :: rest =>
-    (match a.d with
-     | some d => d.seq = s && d.str = t
-     | none => true)
-    && (match linStep a.ins.op s t with
-        | some (s', t') => linOk s' t' rest
-        | none => false)
+def linOk (s t : Nat) (l : List Ann) : Bool := (linLex s t [] l).isSome
 
 /-- Static nesting depth (sequence, string) of the instruction at `p`. -/
-def bracketAt : Nat → Nat → List Ann → Nat → Option (Nat × Nat)
-  | _, _, [], _ => none
-  | s, t, a :: rest, p =>
-    if a.pc = p then some (s, t)
-    else match linStep a.ins.op s t with
-      | some (s', t') => bracketAt s' t' rest p
-      | none => none
+def bracketAt (s t : Nat) (l : List Ann) (p : Nat) : Option (Nat × Nat) :=
+  match linLex s t [] l with
+  | some lex => ((l.zip lex).find? (fun x => x.1.pc == p)).map (·.2)
+  | none => none
 
 /-! ### Lookups in a listing -/
 
